@@ -53,7 +53,7 @@ func (f *faultStore) Set(k kvstore.Key, v kvstore.Value) error {
 func (f *faultStore) disarm() { f.failGet, f.failSet, f.setThenFail = false, false, false }
 
 type ev struct {
-	Kind string `json:"k"` // new next nextcrash release abandon | environment (not seen by the model): sib dnew dop
+	Kind string `json:"k"` // new next nextcrash release abandon | environment (not seen by the model): sib dnew dop smaint (F = maintenance op of the owner of sibling view I)
 	I    uint64 `json:"i,omitempty"`
 	F    string `json:"f,omitempty"` // NoFault FailGet FailSet | AfterRead AfterWrite | fails | sib: realm name | dop: next release restart
 	// Via = "flush": the fault is a Flush of the backend that fails after the Set was accepted into the write buffer
@@ -65,7 +65,9 @@ type ev struct {
 
 // envEvent: the event acts on the environment of the sequence under test (sibling views, other sequences); the model
 // does not see it because it must not influence the sequence.
-func (e ev) envEvent() bool { return e.Kind == "sib" || e.Kind == "dnew" || e.Kind == "dop" }
+func (e ev) envEvent() bool {
+	return e.Kind == "sib" || e.Kind == "dnew" || e.Kind == "dop" || e.Kind == "smaint"
+}
 
 func modelEvents(h []ev) []ev {
 	var m []ev
@@ -129,6 +131,12 @@ func runHistory(c cfg, h []ev) ([]obs, *env) {
 		case "dnew":
 			if d := en.addDecoy(en.view, en.prefix, e.Key, 1+e.I%3); d != nil {
 				d.next()
+			}
+			continue
+		case "smaint":
+			if len(en.sibs) > 0 {
+				sb := en.sibs[int(e.I%uint64(len(en.sibs)))]
+				en.maintain(sb.store, sb.prefix, e.F)
 			}
 			continue
 		case "dop":
@@ -236,6 +244,13 @@ var sibKeys = []string{"seq", "sq1"}
 // parent.WithExtendedRealm(name) or by top.WithRealm(whole prefix), always from a slice with spare capacity.
 func genCfg(r *vx.Rng, store string) cfg {
 	c := cfg{Store: store}
+	if store == "debug" {
+		// the tracing wrapper alone and stacked with realm views / flushkv
+		c.Store = vx.Pick(r, []string{"root", "realm", "realm", "flush", "flushrealm"})
+		store = c.Store
+		c.Debug = vx.Pick(r, []string{"nil", "all", "none", "get", "set", "notset"})
+		c.DebugAt = vx.Pick(r, []string{"top", "view", "under"})
+	}
 	if c.flush() {
 		c.Drop = r.Bool()
 	}
@@ -252,7 +267,9 @@ func genEnvEvent(r *vx.Rng, c cfg) ev {
 	switch k := r.Intn(10); {
 	case k < 3:
 		return ev{Kind: "sib", F: vx.Pick(r, siblingNames), Key: vx.Pick(r, sibKeys), I: uint64(r.Intn(3)), Abs: r.Chance(1, 4)}
-	case k < 5:
+	case k < 4:
+		return ev{Kind: "smaint", I: uint64(r.Intn(6)), F: vx.Pick(r, maintOps)}
+	case k < 6:
 		return ev{Kind: "dnew", Key: vx.Pick(r, viewKeys), I: uint64(r.Intn(3))}
 	default:
 		return ev{Kind: "dop", I: uint64(r.Intn(8)), F: vx.Pick(r, []string{"next", "next", "next", "release", "restart"})}
@@ -374,6 +391,8 @@ func directed() []dcase {
 	// the same lifecycle on every other configuration shape: lease, sibling views and other sequences in between,
 	// lease renewal, every crash point / flush fault, restart
 	envd := []ev{{Kind: "new", I: 2}, n, {Kind: "dnew", Key: "sq1"}, {Kind: "sib", F: "log/", Key: "seq"}, {Kind: "sib", F: "seq/", Key: "sq2", Abs: true}, n, n,
+		{Kind: "smaint", I: 0, F: "fill"}, {Kind: "smaint", I: 0, F: "iterate"}, {Kind: "smaint", I: 0, F: "delprefix"}, {Kind: "sib", F: "idx/", Key: "sq1"}, {Kind: "smaint", I: 2, F: "batch"}, n,
+		{Kind: "smaint", I: 0, F: "delprefix-empty"}, {Kind: "smaint", I: 2, F: "clear"}, {Kind: "smaint", I: 1, F: "clear"},
 		{Kind: "dop", I: 0, F: "next"}, {Kind: "dop", I: 1, F: "next"}, n, {Kind: "release", F: "ok"}, {Kind: "dop", I: 1, F: "restart"}, {Kind: "dop", I: 1, F: "next"}, n,
 		{Kind: "abandon"}, {Kind: "new", I: 3}, n, n, n, {Kind: "next", F: "FailSet", Via: "flush"}, {Kind: "abandon"}, {Kind: "new", I: 3}, n,
 		{Kind: "nextcrash", F: "AfterWrite"}, {Kind: "new", I: 1}, n, {Kind: "nextcrash", F: "AfterRead", Via: "flush"}, {Kind: "new", I: 2}, n, {Kind: "dop", I: 0, F: "next"}, {Kind: "dop", I: 2, F: "next"}}
@@ -384,6 +403,11 @@ func directed() []dcase {
 		{Store: "flush"}, {Store: "flush", Drop: true},
 		{Store: "flushrealm", Chain: []level{{Name: "db/", Abs: true}, {Name: "seq/"}}},
 		{Store: "flushrealm", Drop: true, Chain: []level{{Name: "a/"}, {Name: "seq/", Abs: true}}},
+		{Store: "root", Debug: "nil", DebugAt: "top"}, {Store: "root", Debug: "get", DebugAt: "view"},
+		{Store: "realm", Debug: "notset", DebugAt: "top", Chain: []level{{Name: "db/"}, {Name: "seq/"}}},
+		{Store: "realm", Debug: "none", DebugAt: "view", Chain: []level{{Name: "a/", Abs: true}, {Name: "seq/"}}},
+		{Store: "flushrealm", Debug: "set", DebugAt: "under", Chain: []level{{Name: "db/"}, {Name: "seq/", Abs: true}}},
+		{Store: "flush", Debug: "all", DebugAt: "top"},
 	} {
 		d = append(d, dcase{c, envd})
 	}
@@ -415,7 +439,7 @@ func emit(cf *vx.CasesFile, st *vx.Stats, c cfg, h []ev, tag string) {
 			st.Count("ev:" + e.Kind + ":via-" + e.Via)
 		}
 	}
-	st.Count("store:" + c.Store)
+	st.Count("store:" + c.family())
 	st.Case(strings.Join(keyParts, ";"), nums >= 2)
 	st.CaseIndex = append(st.CaseIndex, map[string]any{"tag": tag, "store": c, "history": h})
 	st.Sample(map[string]any{"store": c.String(), "history": keyParts, "observed": obsTerms}, 3)
@@ -457,7 +481,7 @@ func main() {
 	for _, d := range directed() {
 		emit(cf, st, d.c, d.h, "directed")
 	}
-	stores := []string{"root", "root", "realm", "flush", "flushrealm"}
+	stores := []string{"root", "root", "realm", "flush", "flushrealm", "debug"}
 	for i := 0; cf.Len() < *n; i++ {
 		hr := r.Fork()
 		c := genCfg(hr, stores[i%len(stores)])
@@ -466,7 +490,7 @@ func main() {
 	conc(r.Fork(), st, *concRuns, *multiOps)
 	wr := r.Fork()
 	windows(wr, st, *winLists, cfg{Store: "root"})
-	for _, s := range []string{"realm", "flush", "flushrealm"} {
+	for _, s := range []string{"realm", "flush", "flushrealm", "debug"} {
 		windows(wr, st, (*winLists+2)/3, genCfg(wr, s))
 	}
 	if err := cf.Write(*out); err != nil {
